@@ -50,4 +50,30 @@ theorem sender_progress {v : Variant} {cap : Nat} {s : State} {k : Nat} {c : Con
     | exited =>
       have := hi.doneKnown k c hc (Or.inr (Or.inr (Or.inr hs))); rw [hk] at this; cases this
 
+/-- the statements of `connection.recv` for connection `k` once `Read` has failed -/
+def receiverActions (k : Nat) : List Action :=
+  [.rEof k, .rErr k, .mark .closing k, .rClose k, .rSignal k]
+
+/-- Whatever way connection `k` was lost — orderly close by the server (`io.EOF`), abortive close
+(`*net.OpError`), or the client's own close of the socket — the receiver of `k`, until it is done,
+has an enabled statement, and every path from its pending `Read` leads through `close(conn_k)`. -/
+theorem receiver_progress {v : Variant} {cap : Nat} {s : State} {k : Nat} {c : Conn}
+    (hc : s.conns[k]? = some c) (hl : c.alive = false ∨ c.known = true) (hd : c.rpc ≠ .done) :
+    ∃ a ∈ receiverActions k, (step v cap s a).isSome = true := by
+  cases hr : c.rpc with
+  | reading =>
+    by_cases h1 : c.reset = true ∨ c.known = true
+    · exact ⟨.rErr k, by simp [receiverActions], by simp [step, hc, hr, h1]⟩
+    · have h2 : c.reset = false ∧ c.known = false := by
+        cases hx : c.reset <;> cases hy : c.known <;> simp_all
+      have h3 : c.alive = false := by
+        rcases hl with h | h
+        · exact h
+        · rw [h2.2] at h; cases h
+      exact ⟨.rEof k, by simp [receiverActions], by simp [step, hc, hr, h2, h3]⟩
+  | atClosing => exact ⟨.mark .closing k, by simp [receiverActions], by simp [step, hc, hr]⟩
+  | closing => exact ⟨.rClose k, by simp [receiverActions], by simp [step, hc, hr]⟩
+  | signalling => exact ⟨.rSignal k, by simp [receiverActions], by simp [step, hc, hr]⟩
+  | done => exact absurd hr hd
+
 end Tars.ClientConn
